@@ -269,6 +269,10 @@ pub struct Gc {
     /// only refer to each other through some reference or channel allocated in generation 0 (and
     /// if they do interact with eachother this means the values are cloned into generation 0).
     generation: Generation,
+    /// Process unique id of this garbage collector (verification hook)
+    #[cfg(gluon_verif)]
+    #[cfg_attr(feature = "serde_derive", serde(skip))]
+    pub(crate) verif_id: u64,
 }
 
 impl Drop for Gc {
@@ -1054,7 +1058,11 @@ where
         // Anything inside a `GcPtr` is implicitly rooted by the pointer itself being rooted
     }
     fn trace(&self, gc: &mut Gc) {
+        #[cfg(gluon_verif)]
+        crate::verif::on_reach(gc.verif_id, self.header() as *const GcHeader as usize);
         if !gc.mark(self) {
+            #[cfg(gluon_verif)]
+            let _verif_guard = crate::verif::enter(self.header() as *const GcHeader as usize);
             // Continue traversing if this ptr was not already marked
             (**self).trace(gc);
         }
@@ -1073,6 +1081,8 @@ impl Gc {
             record_infos: FnvMap::default(),
             tag_infos: FnvMap::default(),
             generation: generation,
+            #[cfg(gluon_verif)]
+            verif_id: crate::verif::next_gc_id(),
         }
     }
 
@@ -1089,6 +1099,8 @@ impl Gc {
     }
 
     pub fn new_child_gc(&self) -> Gc {
+        #[cfg(gluon_verif)]
+        crate::verif::set_next_parent(self.verif_id);
         Gc::new(self.generation.next(), self.memory_limit)
     }
 
@@ -1150,6 +1162,8 @@ impl Gc {
                 needed: needed,
             });
         }
+        #[cfg(gluon_verif)]
+        crate::verif::note_checked_alloc();
         Ok(self.alloc_ignore_limit_(size, def))
     }
 
@@ -1246,6 +1260,13 @@ impl Gc {
         let mut ptr = AllocPtr::new::<D::Value>(type_info, size);
         ptr.next = self.values.take();
         self.allocated_memory += ptr.size();
+        #[cfg(gluon_verif)]
+        crate::verif::on_alloc(
+            self.verif_id,
+            ptr.ptr as usize,
+            self.allocated_memory,
+            self.memory_limit,
+        );
         unsafe {
             let p: *mut D::Value = D::Value::make_ptr(&def, ptr.value());
             let ret: *const D::Value = &*def.initialize(WriteOnly::new(p));
@@ -1264,6 +1285,11 @@ impl Gc {
         R: Trace + CollectScope,
     {
         unsafe {
+            #[cfg(gluon_verif)]
+            if crate::verif::force_collect() {
+                self.collect(roots);
+                return true;
+            }
             if self.allocated_memory >= self.collect_limit {
                 self.collect(roots);
                 true
@@ -1362,6 +1388,19 @@ impl Gc {
             self.allocated_memory -= ptr.size();
         }
         debug!("FREE: {:?}", header);
+        #[cfg(gluon_verif)]
+        let header = match header {
+            Some(mut ptr) if crate::verif::on_free(ptr.ptr as usize, ptr.size()) => {
+                // Quarantine: run the drop glue, poison the payload and never reuse the block
+                unsafe {
+                    ((*ptr.type_info).drop)(ptr.value());
+                    ptr::write_bytes(ptr.value() as *mut u8, 0xD5, ptr.value_size);
+                }
+                mem::forget(ptr);
+                None
+            }
+            header => header,
+        };
         drop(header);
     }
 }
